@@ -191,7 +191,8 @@ def successors(G, N, allow):
         if "output_of" in n:
             # a task output is a configuration like any other: pre-tasks can be attached to it
             if "pre" in allow and "struct" in allow and len(n.get("pre", [])) < 1:
-                choices = (["new"] if room >= 1 else []) + [("ref", r) for r in G["nodes"] if node_cls(G, r) == "pre"]
+                used_as_init = {p for m in G["nodes"].values() for p in m.get("init", [])}
+                choices = (["new"] if room >= 1 else []) + [("ref", r) for r in G["nodes"] if node_cls(G, r) == "pre" and r not in used_as_init]
                 for c in choices:
                     H = clone()
                     r = add_default_node(H, "pre") if c == "new" else c[1]
@@ -315,20 +316,23 @@ def successors(G, N, allow):
                 out.append(H)
         # ---- pre-tasks
         if "pre" in allow and not SCHEMA[cls].get("light") and len(n.get("pre", [])) < 2:
-            choices = (["new"] if room >= 1 else []) + [("ref", r) for r in G["nodes"] if node_cls(G, r) == "pre" and r not in n["pre"]]
+            used_as_init = {p for m in G["nodes"].values() for p in m.get("init", [])}
+            choices = (["new", "new-init-class"] if room >= 1 else []) + [("ref", r) for r in G["nodes"] if node_cls(G, r) == "pre" and r not in n["pre"] and r not in used_as_init]
             for c in choices:
                 H = clone()
-                r = add_default_node(H, "pre") if c == "new" else c[1]
+                # (any lightweight task can be a pre-task: also one of the class otherwise used as init task)
+                r = add_default_node(H, "pre") if c == "new" else (add_default_node(H, "init") if c == "new-init-class" else c[1])
                 H["nodes"][l]["pre"] = list(n["pre"]) + [r]
                 if not creates_task_cycle(H):
                     out.append(H)
         # ---- init tasks (root task only)
         if "pre" in allow and l == G["root"] and SCHEMA[cls].get("task") and len(n.get("init", [])) < 2:
-            choices = (["new"] if room >= 1 else []) + [("ref", r) for r in G["nodes"] if node_cls(G, r) == "init" and r not in n["init"]]
+            used_as_pre = {p for m in G["nodes"].values() for p in m.get("pre", [])}
+            choices = (["new", "new-pre-class"] if room >= 1 else []) + [("ref", r) for r in G["nodes"] if node_cls(G, r) == "init" and r not in n["init"] and r not in used_as_pre]
             for c in choices:
                 for front in ((False, True) if n["init"] else (False,)):
                     H = clone()
-                    r = add_default_node(H, "init") if c == "new" else c[1]
+                    r = add_default_node(H, "init") if c == "new" else (add_default_node(H, "pre") if c == "new-pre-class" else c[1])
                     H["nodes"][l]["init"] = ([r] + list(n["init"])) if front else (list(n["init"]) + [r])
                     out.append(H)
     return out
